@@ -46,3 +46,9 @@ Print Assumptions C12_full_refuted_D17.
 
 Example C12_one_bom_is_in_the_domain : at_most_one_bom (cBOM :: s2l "Table") = true.
 Proof. reflexivity. Qed.
+
+(* remove_bom, which every route applies, is regenerated from its source text on every run *)
+From PyDBML Require Import Tools GenFns GenFnTie.
+Theorem C12_remove_bom_regenerated_from_source : forall s, gen_remove_bom s = remove_bom s.
+Proof. exact gen_remove_bom_is_model. Qed.
+Print Assumptions C12_remove_bom_regenerated_from_source.
